@@ -239,8 +239,16 @@ func solveBatch(dir, name, body string, n int, toSecs int, needTwo bool) BatchRe
 	}
 	res := BatchResult{Status: make([]string, n), Solver: make([]string, n)}
 	count := make([]int, n)
+	var grace <-chan time.Time
 	for i := 0; i < running; i++ {
-		r := <-ch
+		var r one
+		select {
+		case r = <-ch:
+		case <-grace:
+			// cross-check window over: every goal has a definite answer from one solver already
+			i = running
+			continue
+		}
 		if r.err != "" {
 			res.Err += r.err
 		}
@@ -278,6 +286,23 @@ func solveBatch(dir, name, body string, n int, toSecs int, needTwo bool) BatchRe
 		}
 		if done {
 			break
+		}
+		if needTwo && grace == nil {
+			all := true
+			for k := 0; k < n; k++ {
+				if res.Status[k] != "sat" && res.Status[k] != "unsat" && res.Status[k] != "error" {
+					all = false
+				}
+			}
+			if all {
+				// a second opinion is wanted, but not at any price: the other solvers get as long again as the
+				// first one took (at least 5 s)
+				d := 2 * time.Since(start)
+				if d < 5*time.Second {
+					d = 5 * time.Second
+				}
+				grace = time.After(d)
+			}
 		}
 	}
 	cancel()
